@@ -102,6 +102,7 @@ def plan(tier, seed, kf_ids):
                                    "From<%s>/LossyFrom<%s> for %s are exact for every integer" % (it, it, c.alias(sd, wd, f)),
                                    "From %s->%s" % (it, c.alias(sd, wd, f))))
     return {
+        "engine_m": ["tofixed"],
         "feature": "c04",
         "jobs": jobs,
         "functions": ["traits.rs: FromFixed/ToFixed for Fixed*, for the 12 integer types and bool ({,checked_,saturating_,"
